@@ -244,6 +244,7 @@ func (t *recTool) InvokableRun(ctx context.Context, args string, opts ...tool.Op
 type unit struct {
 	name       string
 	start, end string
+	fails      bool // the unit ends with an error (or interrupt): its end-type event is OnError
 	inSub      bool // inside the sub-graph node "s"
 	isSub      bool
 	leaf       string
@@ -311,6 +312,37 @@ func (sp *spec) build() (func(), func(x *vsched.Exec) (string, error)) {
 				return
 			}
 			result, runErr = exec(ctx, r, sp.call, opts)
+		case "interrupt":
+			// node a asks to be interrupted (and re-run later): its execution and the graph's end with an error-type event
+			g := compose.NewGraph[gprog.Val, gprog.Val]()
+			g.AddLambdaNode("a", compose.InvokableLambda(func(ctx context.Context, in gprog.Val) (gprog.Val, error) {
+				if sp.yields {
+					vsched.Yield()
+				}
+				return nil, compose.InterruptAndRerun
+			}), compose.WithNodeName("a"))
+			g.AddLambdaNode("b", lam("b", sp.yields), compose.WithNodeName("b"))
+			for _, k := range []string{"a", "b"} {
+				g.AddEdge(compose.START, k)
+				g.AddEdge(k, compose.END)
+			}
+			units = append(units, unit{name: "a", start: in, fails: true, leaf: "a"})
+			units = append(units, unit{name: "b", start: in, end: gprog.Canon(gprog.NodeFn("b", input)), leaf: "b"})
+			units = append(units, unit{name: "G0", start: in, fails: true})
+			if sp.desig == "leaves" {
+				designate("Da", "a", func(u unit) bool { return u.name == "a" })
+				designate("Db", "b", func(u unit) bool { return u.name == "b" })
+			}
+			r, err := g.Compile(ctx, compose.WithGraphName("G0"))
+			if err != nil {
+				runErr = err
+				return
+			}
+			_, e := exec(ctx, r, sp.call, opts)
+			if _, isInt := compose.ExtractInterruptInfo(e); !isInt {
+				runErr = fmt.Errorf("expected an interrupt, got %v", e)
+			}
+			result = "<interrupted>"
 		case "nested":
 			sub := compose.NewGraph[gprog.Val, gprog.Val]()
 			sres := gprog.Val{}
@@ -355,8 +387,14 @@ func (sp *spec) build() (func(), func(x *vsched.Exec) (string, error)) {
 				return
 			}
 			result, runErr = exec(ctx, r, sp.call, opts)
-		case "tools":
-			tn, err := compose.NewToolNode(ctx, &compose.ToolsNodeConfig{Tools: []tool.BaseTool{&recTool{"t1", sp.yields}, &recTool{"t2", sp.yields}}})
+		case "tools", "tools-unknown":
+			cfg := &compose.ToolsNodeConfig{Tools: []tool.BaseTool{&recTool{"t1", sp.yields}, &recTool{"t2", sp.yields}}}
+			if sp.shape == "tools-unknown" {
+				cfg.UnknownToolsHandler = func(ctx context.Context, name, in string) (string, error) {
+					return "handled(" + name + "," + in + ")", nil
+				}
+			}
+			tn, err := compose.NewToolNode(ctx, cfg)
 			if err != nil {
 				runErr = err
 				return
@@ -372,11 +410,18 @@ func (sp *spec) build() (func(), func(x *vsched.Exec) (string, error)) {
 			units = append(units, unit{name: "t1", start: "A", end: "t1(A)", leaf: "t1"})
 			units = append(units, unit{name: "t2", start: "B", end: "t2(B)", leaf: "t2"})
 			outMsgs := "[msg(tool,t1(A),calls=0),msg(tool,t2(B),calls=0)]"
+			if sp.shape == "tools-unknown" {
+				// a call answered by the unknown-tool handler is a tool call like the others
+				// two calls (t1 and the unknown one): keeps the thread count of the plain tools shape
+				msg.ToolCalls = []schema.ToolCall{msg.ToolCalls[0], {ID: "c3", Function: schema.FunctionCall{Name: "ghost", Arguments: "C"}}}
+				units = []unit{{name: "t1", start: "A", end: "t1(A)", leaf: "t1"}, {name: "ghost", start: "C", end: "handled(ghost,C)", leaf: "ghost"}}
+				outMsgs = "[msg(tool,t1(A),calls=0),msg(tool,handled(ghost,C),calls=0)]"
+			}
 			units = append(units, unit{name: "tools", start: render(msg), end: outMsgs})
 			units = append(units, unit{name: "G0", start: render(msg), end: outMsgs})
 			if sp.desig == "leaves" {
 				// a handler designated to the tools node applies to the node and (context inheritance) its tool calls
-				designate("Dt", "tools", func(u unit) bool { return u.name == "tools" || u.name == "t1" || u.name == "t2" })
+				designate("Dt", "tools", func(u unit) bool { return u.name == "tools" || u.name == "t1" || u.name == "t2" || u.name == "ghost" })
 			}
 			r, err := g.Compile(ctx, compose.WithGraphName("G0"))
 			if err != nil {
@@ -435,7 +480,7 @@ func (sp *spec) build() (func(), func(x *vsched.Exec) (string, error)) {
 				g0 = u
 			}
 		}
-		if result != g0.end {
+		if result != g0.end && !g0.fails {
 			return "", fmt.Errorf("flow result disturbed: got %s want %s", result, g0.end)
 		}
 		hnames := make([]string, 0, len(applicable))
@@ -472,6 +517,15 @@ func (sp *spec) build() (func(), func(x *vsched.Exec) (string, error)) {
 				}
 				if len(starts) != 1 || len(ends) != 1 {
 					return "", fmt.Errorf("handler %s applies to unit %s and must see exactly one start and one end event, saw %d start / %d end (all events of the handler: %v)", h, u.name, len(starts), len(ends), eventsOf(w.events, h))
+				}
+				if u.fails {
+					if ends[0].kind != "error" {
+						return "", fmt.Errorf("handler %s: unit %s ended with an error/interrupt but the handler got a %s event", h, u.name, ends[0].kind)
+					}
+					if !payloadOK(starts[0].payload, u.start, sp.streamMod) {
+						return "", fmt.Errorf("handler %s: start payload of unit %s is %s, the unit consumed %s", h, u.name, starts[0].payload, u.start)
+					}
+					continue
 				}
 				if ends[0].kind != "end" {
 					return "", fmt.Errorf("handler %s got an error event for unit %s of a successful run", h, u.name)
@@ -605,7 +659,7 @@ func main() {
 	if !quick {
 		bounds = []int{0, 1, 2, 3}
 	}
-	shapes := []string{"fan2", "nested", "tools", "fan3"}
+	shapes := []string{"fan2", "nested", "tools", "interrupt", "tools-unknown", "fan3"}
 	for _, shape := range shapes {
 		desigs := []string{"", "leaves"}
 		if shape == "nested" {
@@ -633,6 +687,9 @@ func main() {
 										continue
 									}
 									if mod != "drain" && !(undes >= 2) && !(desig != "" && undes == 1) {
+										continue
+									}
+									if quick && shape == "tools-unknown" && !(undes <= 1 && !raw && mod == "drain") {
 										continue
 									}
 									if quick && shape == "fan3" && !(undes == 3 && separate && desig == "leaves") {
